@@ -163,6 +163,20 @@ pub fn near_uniform(n: usize, k: usize, boost: usize, matches: usize, seed: u64)
     v
 }
 
+/// `counts(s)` copies of each byte value s in 0..200, shuffled: literals with an exactly chosen histogram
+pub fn multiset200(counts: &dyn Fn(usize) -> usize, seed: u64) -> Vec<u8> {
+    let mut v = vec![];
+    for sym in 0..200usize {
+        v.extend(std::iter::repeat(sym as u8).take(counts(sym)));
+    }
+    let mut rnd = xorshift(seed);
+    for i in (1..v.len()).rev() {
+        let j = (rnd() % (i as u64 + 1)) as usize;
+        v.swap(i, j);
+    }
+    v
+}
+
 pub fn text_like(n: usize, seed: u32) -> Vec<u8> {
     let mut v = Vec::with_capacity(n + 64);
     let mut i = seed;
